@@ -34,8 +34,9 @@ const (
 // If the buffer isn't a valid STUN or ChannelData packet,
 // or the length doesn't match return false.
 func consumeSingleTURNFrame(b []byte) (int, error) {
-	// Too short to determine if ChannelData or STUN
-	if len(b) < 9 {
+	// Too short to determine if ChannelData or STUN. The ChannelData header is enough:
+	// a ChannelData frame with up to four bytes of data is only four or eight bytes long.
+	if len(b) < channelDataHeaderSize {
 		return 0, errIncompleteTURNFrame
 	}
 
